@@ -148,9 +148,6 @@ public:
 		int slen=len;
 		while(slen>0) {
 			unsigned size=strlen(start);
-			if(size==0) {
-				return false;
-			}
 			std::string tmp;
 			tmp.assign(start,size);
 			slen-=size+1;
